@@ -494,6 +494,9 @@ impl World for CompositeWorld {
     fn reports_panics(&self) -> bool {
         self.parts.iter().any(|p| p.1.reports_panics())
     }
+    fn reports_crashes(&self) -> bool {
+        self.parts.iter().any(|p| p.1.reports_crashes())
+    }
     fn expected_probes(&self) -> Vec<&'static str> {
         let mut v = vec![];
         for p in &self.parts {
